@@ -806,3 +806,357 @@ def run_node(sources, workdir):
         return json.loads(p.stdout.strip().splitlines()[-1])
     except Exception:
         return None
+
+
+# =====================================================================================================================
+# Python, multi-file projects (imports: plain, from-import, alias, wildcard, package directories, relative, function-local)
+# =====================================================================================================================
+LIB_VARS = ["va", "vb", "vc", "dup", "x", "y"]
+LIB_FUNS = ["fa", "fb", "dupf"]
+LIB_CLASSES = ["Ca", "Cb"]
+LIB_FILES = ["ma.py", "mb.py", "pkg/__init__.py", "pkg/inner.py", "pkg/sub/__init__.py", "pkg/sub/deep.py"]
+
+
+def modname(path):
+    p = path[:-3].replace("/", ".")
+    return p[:-9] if p.endswith(".__init__") else p
+
+
+class ProjGen:
+    """A project = {path: text}. Every module-level declaration of every file carries a unique constant; functions print their
+    identity constant; `out` is provided through builtins by the driver. meta describes every occurrence per file."""
+
+    def __init__(self, seed, rename=None):
+        self.rng = random.Random(seed)
+        self.ids = Ids(2000)
+        self.rename = rename or {}
+        self.files = {}
+        self.meta = {"lang": "python", "files": {}, "consts": {}, "funcs": {}, "classes": {}, "modules": {}, "uses": {}, "calls": {},
+                     "occ": {}, "imports": {}, "scopes": {}}
+        self.lines = None
+        self.cur = None
+
+    # ---- emission helpers
+    def begin(self, path):
+        self.cur = path
+        self.lines = []
+
+    def end(self):
+        self.files[self.cur] = "\n".join(self.lines) + "\n"
+
+    def emit(self, ind, text):
+        self.lines.append("    " * ind + text)
+        return len(self.lines) - 1
+
+    def nm(self, key, name):
+        rn = self.rename.get(key, name)
+        self.meta["occ"][key] = {"file": self.cur, "name": rn, "line": len(self.lines)}
+        return rn
+
+    def use(self, ind, name, scope, wrapped):
+        tag = self.ids.use()
+        rn = self.rename.get(tag, name)
+        if wrapped:
+            self.emit(ind, "try:")
+            ln = self.emit(ind + 1, f'out("{tag}", {self.nm(tag, name)})')
+            self.emit(ind, "except NameError:")
+            self.emit(ind + 1, f'out("{tag}", "!NE")')
+        else:
+            ln = self.emit(ind, f'out("{tag}", {self.nm(tag, name)})')
+        self.meta["uses"][tag] = {"file": self.cur, "name": rn, "line": ln, "scope": scope, "wrapped": wrapped}
+        return tag
+
+    def scope(self, kind, name, line, parent, method=False):
+        sid = self.ids.scope()
+        self.meta["scopes"][sid] = {"file": self.cur, "kind": kind, "name": name, "line": line, "parent": parent, "method": method}
+        return sid
+
+    # ---- library modules
+    def gen_lib(self, path, plan):
+        rng, ids, m = self.rng, self.ids, self.meta
+        self.begin(path)
+        msid = self.scope("module", "<module>", -1, None)
+        m["files"][path] = {"module": modname(path), "scope": msid, "public": []}
+        pub = m["files"][path]["public"]
+        for imp in plan.get("imports", []):
+            self.emit_import(0, imp, msid)
+            pub.extend(imp["binds"])
+        for v in plan["vars"]:
+            c = ids.const()
+            ln = self.emit(0, f"{self.nm(f'a{c}', v)} = {c}")
+            m["consts"][str(c)] = {"file": path, "name": self.rename.get(f"a{c}", v), "line": ln, "kind": "variable", "scope": msid}
+            pub.append(v)
+        for f in plan["funs"]:
+            c = ids.const()
+            key = f"d{c}"
+            ln = self.emit(0, f"def {self.nm(key, f)}(ct):")
+            fsid = self.scope("function", self.rename.get(key, f), ln, msid)
+            m["consts"][str(c)] = {"file": path, "name": self.rename.get(key, f), "line": ln, "kind": "function", "scope": msid, "fscope": fsid}
+            m["funcs"][f"{modname(path)}:{self.rename.get(key, f)}"] = str(c)
+            self.emit(1, f"out(ct, {c})")
+            for v in plan["vars"] + [i for imp in plan.get("imports", []) for i in imp["binds"]]:
+                if rng.random() < 0.6:
+                    self.use(1, v, fsid, False)
+            pub.append(f)
+        for cl in plan["classes"]:
+            c = ids.const()
+            key = f"d{c}"
+            ln = self.emit(0, f"class {self.nm(key, cl)}:")
+            self.emit(1, f"_d = {c}")
+            m["consts"][str(c)] = {"file": path, "name": self.rename.get(key, cl), "line": ln, "kind": "class", "scope": msid}
+            pub.append(cl)
+        if not self.lines:
+            self.emit(0, "pass")
+        self.end()
+
+    def emit_import(self, ind, imp, scope):
+        """imp: {form, module (dotted, possibly relative), names: [(name, alias|None)], binds: [bound names]}"""
+        key = self.ids.imp()
+        form = imp["form"]
+        if form == "import":
+            alias = imp["alias"]
+            text = f"import {imp['module']}" + (f" as {alias}" if alias else "")
+        elif form == "wildcard":
+            text = f"from {imp['module']} import *"
+        else:
+            parts = []
+            for j, (n, a) in enumerate(imp["names"]):
+                src = self.nm(f"{key}s{j}", n)          # the name as spelled in the exporting module
+                if a:
+                    parts.append(f"{src} as {a}")
+                else:
+                    self.meta["occ"][f"{key}s{j}"]["binds_too"] = True
+                    parts.append(src)
+            text = f"from {imp['module']} import {', '.join(parts)}"
+        ln = self.emit(ind, text)
+        self.meta["imports"][key] = {"file": self.cur, "line": ln, "form": form, "module": imp["module"], "names": imp.get("names"),
+                                     "alias": imp.get("alias"), "binds": imp["binds"], "scope": scope, "target": imp.get("target"),
+                                     "kind": imp["kind"]}
+        return key
+
+
+def gen_py_project(seed, rename=None):
+    g = ProjGen(seed, rename)
+    rng, ids, m = g.rng, g.ids, g.meta
+    # ---- plan the library: which names each file declares
+    plans = {}
+    for path in LIB_FILES:
+        if path == "pkg/sub/__init__.py":
+            plans[path] = {"vars": [], "funs": [], "classes": []}
+            continue
+        nv = rng.choice([1, 2, 2, 3])
+        plans[path] = {"vars": rng.sample(LIB_VARS, nv), "funs": rng.sample(LIB_FUNS, rng.choice([0, 1, 1, 2])),
+                       "classes": rng.sample(LIB_CLASSES, rng.choice([0, 0, 1]))}
+    # intra-library imports (re-export through a module, relative imports inside the package)
+    if rng.random() < 0.5 and plans["ma.py"]["vars"]:
+        n = rng.choice(plans["ma.py"]["vars"])
+        if "re_" + n not in plans["mb.py"]["vars"]:
+            plans["mb.py"]["imports"] = [{"form": "from", "module": "ma", "names": [(n, "re_" + n)], "binds": ["re_" + n], "kind": "from-import-alias(re-export)",
+                                          "target": {"re_" + n: ("ma.py", n)}}]
+    if rng.random() < 0.5 and plans["pkg/inner.py"]["vars"]:
+        n = rng.choice(plans["pkg/inner.py"]["vars"])
+        plans["pkg/sub/deep.py"]["imports"] = [{"form": "from", "module": "..inner", "names": [(n, "up_" + n)], "binds": ["up_" + n],
+                                                "kind": "relative-from-import-alias", "target": {"up_" + n: ("pkg/inner.py", n)}}]
+    if rng.random() < 0.5 and plans["pkg/inner.py"]["funs"]:
+        n = rng.choice(plans["pkg/inner.py"]["funs"])
+        if n not in plans["pkg/__init__.py"]["funs"]:
+            plans["pkg/__init__.py"]["imports"] = [{"form": "from", "module": ".inner", "names": [(n, None)], "binds": [n],
+                                                    "kind": "relative-from-import(package-init-re-export)", "target": {n: ("pkg/inner.py", n)}}]
+            if n in plans["pkg/__init__.py"]["vars"]:
+                plans["pkg/__init__.py"]["vars"].remove(n)
+    for path in LIB_FILES:
+        g.gen_lib(path, plans[path])
+    public = {p: list(dict.fromkeys(m["files"][p]["public"])) for p in LIB_FILES}
+    # ---- main.py
+    g.begin("main.py")
+    msid = g.scope("module", "<module>", -1, None)
+    m["files"]["main.py"] = {"module": "main", "scope": msid, "public": []}
+    bound = {}          # name -> description of what binds it at module level of main
+
+    targets_seen = set()
+    allow_twice = rng.random() < 0.15        # importing one target under two names is a mechanism of its own: keep it rare
+
+    def fresh(t):
+        if t in targets_seen and not allow_twice:
+            return False
+        targets_seen.add(t)
+        return True
+
+    def mk_imports(avail_bound, count):
+        out = []
+        for _ in range(count):
+            form = wchoice(rng, [("import", 2), ("import-as", 2), ("from", 4), ("from-as", 4), ("wildcard", 2), ("from-module", 2), ("from-module-as", 2)])
+            if form in ("import", "import-as"):
+                path = rng.choice(["ma.py", "mb.py", "pkg/__init__.py"])
+                mod = modname(path)
+                alias = ("al_" + mod) if form == "import-as" else None
+                b = alias or mod
+                if b in avail_bound or not fresh((path, None)):
+                    continue
+                avail_bound[b] = 1
+                out.append({"form": "import", "module": mod, "alias": alias, "binds": [b], "kind": "import-as" if alias else "import",
+                            "target": {b: (path, None)}})
+            elif form in ("from", "from-as"):
+                path = rng.choice([p for p in LIB_FILES if public[p]])
+                n = rng.choice(public[path])
+                a = ("al_" + n) if form == "from-as" else None
+                b = a or n
+                if b in avail_bound or not fresh((path, n)):
+                    continue
+                avail_bound[b] = 1
+                pk = "-from-package-init" if path.endswith("__init__.py") else ("-from-package-module" if "/" in path else "")
+                out.append({"form": "from", "module": modname(path), "names": [(n, a)], "binds": [b],
+                            "kind": ("from-import-alias" if a else "from-import") + pk, "target": {b: (path, n)}})
+            elif form == "wildcard":
+                path = rng.choice(["ma.py", "mb.py", "pkg/inner.py"])
+                names = [n for n in public[path] if not n.startswith("_")]
+                if not names or any(n in avail_bound for n in names):
+                    continue
+                for n in names:
+                    avail_bound[n] = 1
+                out.append({"form": "wildcard", "module": modname(path), "binds": names, "kind": "from-import-wildcard",
+                            "target": {n: (path, n) for n in names}})
+            else:
+                pkgmod, path = rng.choice([("pkg", "pkg/inner.py"), ("pkg.sub", "pkg/sub/deep.py"), ("pkg", "pkg/sub/__init__.py")])
+                n = path.split("/")[-1][:-3] if not path.endswith("__init__.py") else "sub"
+                a = ("al_" + n) if form == "from-module-as" else None
+                b = a or n
+                if b in avail_bound or not fresh((path, None)):
+                    continue
+                avail_bound[b] = 1
+                out.append({"form": "from", "module": pkgmod, "names": [(n, a)], "binds": [b],
+                            "kind": "from-package-import-module" + ("-alias" if a else ""), "target": {b: (path, None)}})
+        return out
+
+    top_imports = mk_imports(bound, rng.choice([3, 4, 5, 6]))
+    for imp in top_imports:
+        g.emit_import(0, imp, msid)
+    own = [n for n in ["gx", "vb", "x"] if n not in bound and rng.random() < 0.6]
+    for n in own:
+        c = ids.const()
+        ln = g.emit(0, f"{g.nm(f'a{c}', n)} = {c}")
+        m["consts"][str(c)] = {"file": "main.py", "name": g.rename.get(f"a{c}", n), "line": ln, "kind": "variable", "scope": msid}
+        bound[n] = 1
+    all_lib_names = sorted({n for p in LIB_FILES for n in public[p]})
+    cand = sorted(set(bound) | set(rng.sample(all_lib_names, min(4, len(all_lib_names)))))
+
+    def uses(ind, scope, visible, k):
+        for n in rng.sample(cand, min(k, len(cand))):
+            g.use(ind, n, scope, n not in visible)
+
+    calls = []
+    # a function with a parameter shadowing a module-level (possibly imported) name, a function-local import, a nested function
+    fc = ids.const()
+    pshadow = rng.choice(sorted(bound)) if bound and rng.random() < 0.6 else None
+    pc = ids.const() if pshadow else None
+    ln = g.emit(0, f"def {g.nm(f'd{fc}', 'f1')}(ct" + (f", {g.nm(f'p{pc}', pshadow)}" if pshadow else "") + "):")
+    f1 = g.scope("function", g.rename.get(f"d{fc}", "f1"), ln, msid)
+    m["consts"][str(fc)] = {"file": "main.py", "name": g.rename.get(f"d{fc}", "f1"), "line": ln, "kind": "function", "scope": msid, "fscope": f1}
+    if pshadow:
+        m["consts"][str(pc)] = {"file": "main.py", "name": g.rename.get(f"p{pc}", pshadow), "line": ln, "kind": "parameter", "scope": f1}
+    g.emit(1, f"out(ct, {fc})")
+    local_bound = dict(bound)
+    if pshadow:
+        local_bound[pshadow] = 1
+    fl = {}
+    loc_imports = mk_imports(fl, rng.choice([0, 1, 1, 2]))
+    loc_imports = [i for i in loc_imports if not any(b == pshadow for b in i["binds"]) and i["form"] != "wildcard"]
+    for imp in loc_imports:
+        imp["kind"] += "(function-local)"
+        g.emit_import(1, imp, f1)
+        for b in imp["binds"]:
+            local_bound[b] = 1
+    uses(1, f1, local_bound, 5)
+    ic = ids.const()
+    ln = g.emit(1, f"def {g.nm(f'd{ic}', 'nest')}(ct):")
+    f2 = g.scope("function", g.rename.get(f"d{ic}", "nest"), ln, f1)
+    m["consts"][str(ic)] = {"file": "main.py", "name": g.rename.get(f"d{ic}", "nest"), "line": ln, "kind": "function", "scope": f1, "fscope": f2}
+    g.emit(2, f"out(ct, {ic})")
+    uses(2, f2, local_bound, 4)
+    ctag = ids.call()
+    ln = g.emit(1, f'{g.nm(ctag, "nest")}("{ctag}")')
+    m["calls"][ctag] = {"file": "main.py", "name": g.rename.get(ctag, "nest"), "line": ln, "scope": f1}
+    # a class with a method
+    kc, mc = ids.const(), ids.const()
+    ln = g.emit(0, "class K:")
+    ksid = g.scope("class", "K", ln, msid)
+    g.emit(1, f"_d = {kc}")
+    m["consts"][str(kc)] = {"file": "main.py", "name": "K", "line": ln, "kind": "class", "scope": msid}
+    ln = g.emit(1, "def m(self, ct):")
+    msc = g.scope("function", "m", ln, ksid, method=True)
+    m["consts"][str(mc)] = {"file": "main.py", "name": "m", "line": ln, "kind": "method", "scope": ksid, "fscope": msc}
+    g.emit(2, f"out(ct, {mc})")
+    uses(2, msc, bound, 4)
+    # module-level uses and calls
+    uses(0, msid, bound, 6)
+    ctag = ids.call()
+    ln = g.emit(0, f'{g.nm(ctag, "f1")}("{ctag}"' + (f", {pc}" if pshadow else "") + ")")
+    m["calls"][ctag] = {"file": "main.py", "name": g.rename.get(ctag, "f1"), "line": ln, "scope": msid}
+    g.emit(0, f'K().m("{ids.call()}")')
+    # call every imported library function that is bound under some name at module level (call-site binding across files)
+    for imp in top_imports:
+        for b in imp["binds"]:
+            tgt = imp["target"].get(b)
+            if tgt and tgt[1] is not None:
+                info = [c for c, d in m["consts"].items() if d["file"] == tgt[0] and d["kind"] == "function"]
+                # (resolved at run time; here only names that are functions in the exporting file or re-exported functions)
+                is_fun = any(m["consts"][c]["name"] == g.rename.get("d" + c, tgt[1]) or m["consts"][c]["name"] == tgt[1] for c in info) or \
+                    any(tgt[1] in (i2.get("binds") or []) and "re-export" in i2["kind"] and tgt[1] in LIB_FUNS for i2 in plans[tgt[0]].get("imports", []))
+                if is_fun:
+                    ctag = ids.call()
+                    ln = g.emit(0, f'{g.nm(ctag, b)}("{ctag}")')
+                    m["calls"][ctag] = {"file": "main.py", "name": g.rename.get(ctag, b), "line": ln, "scope": msid}
+    g.end()
+    return g.files, json.loads(json.dumps(m))
+
+
+PY_PROJECT_DRIVER = r'''
+import builtins, json, os, runpy, sys, types
+root = sys.argv[1]
+sys.path.insert(0, root)
+outs = []
+def out(tag, v):
+    if isinstance(v, bool) or v is None:
+        outs.append([tag, "other", repr(v)])
+    elif isinstance(v, int):
+        outs.append([tag, "const", v])
+    elif isinstance(v, str):
+        outs.append([tag, "str", v])
+    elif isinstance(v, types.ModuleType):
+        f = getattr(v, "__file__", None)
+        outs.append([tag, "module", os.path.relpath(f, root) if f else v.__name__])
+    elif isinstance(v, types.FunctionType):
+        outs.append([tag, "func", v.__module__ + ":" + v.__qualname__])
+    elif isinstance(v, type):
+        outs.append([tag, "const", getattr(v, "_d", -1)])
+    else:
+        outs.append([tag, "other", repr(v)[:60]])
+builtins.out = out
+status = "ok"
+try:
+    runpy.run_path(os.path.join(root, "main.py"), run_name="main")
+except BaseException as e:
+    status = "raise:" + type(e).__name__ + ":" + str(e)[:160]
+print(json.dumps({"status": status, "outputs": outs}))
+'''
+
+
+def run_py_project(files, workdir):
+    import os
+    import subprocess
+    import sys
+    root = os.path.join(workdir, "proj")
+    for n, t in files.items():
+        p = os.path.join(root, n)
+        os.makedirs(os.path.dirname(p), exist_ok=True)
+        with open(p, "w") as f:
+            f.write(t)
+    drv = os.path.join(workdir, "driver.py")
+    with open(drv, "w") as f:
+        f.write(PY_PROJECT_DRIVER)
+    try:
+        p = subprocess.run([sys.executable, "-B", drv, root], capture_output=True, text=True, timeout=60,
+                           env={"PATH": os.environ.get("PATH", ""), "PYTHONDONTWRITEBYTECODE": "1"})
+        return json.loads(p.stdout.strip().splitlines()[-1])
+    except Exception as e:
+        return {"status": "driver:" + repr(e)[:100], "outputs": []}
